@@ -7,6 +7,8 @@ import (
 	"sort"
 	"strconv"
 	"strings"
+	"sync/atomic"
+	"syscall"
 	"time"
 )
 
@@ -366,4 +368,99 @@ func (g *Goro) HasFrameContaining(sub string) bool {
 		}
 	}
 	return false
+}
+
+// ---- spin (busy-loop) proof ----
+
+var callTick int64
+
+// CallTick is incremented by the harness around every library call it makes on its own goroutines.
+func CallTick() { atomic.AddInt64(&callTick, 1) }
+
+// CallTicks returns the counter.
+func CallTicks() int64 { return atomic.LoadInt64(&callTick) }
+
+func processCPU() time.Duration {
+	var ru syscall.Rusage
+	if err := syscall.Getrusage(syscall.RUSAGE_SELF, &ru); err != nil {
+		return 0
+	}
+	return time.Duration(ru.Utime.Nano() + ru.Stime.Nano())
+}
+
+// SpinState is the result of ProveSpin.
+type SpinState struct {
+	Spinning bool
+	Func     string // innermost library function of the spinning goroutine
+	CPU      time.Duration
+	Dump     string
+	Reason   string
+}
+
+// ProveSpin decides whether one goroutine has been computing inside one and the same library function for the whole
+// observation: `samples` censuses one second apart all show the same goroutine id running/runnable with the same
+// innermost library function, and the process consumed at least minCPU of CPU time meanwhile (so it really executed
+// that long — CPU time, not wall time, is what is measured: on a loaded machine the samples just take longer to
+// accumulate it). stillStuck is polled at every sample; it must keep returning true (e.g. "the call counter has not moved").
+func ProveSpin(samples int, minCPU time.Duration, stillStuck func() bool) SpinState {
+	self := selfGoroID()
+	type key struct {
+		id int64
+		fn string
+	}
+	var cand map[key]string
+	cpu0 := processCPU()
+	for i := 0; i < samples || processCPU()-cpu0 < minCPU; i++ {
+		if i > 4*samples {
+			return SpinState{Reason: "not enough CPU time consumed while observing"}
+		}
+		if stillStuck != nil && !stillStuck() {
+			return SpinState{Reason: "progress was made"}
+		}
+		now := map[key]string{}
+		for _, g := range Census() {
+			if g.ID == self || (g.State != "running" && g.State != "runnable") {
+				continue
+			}
+			// matched on the goroutine and its outermost library frame (the entry point of this one call or
+			// handler invocation); the innermost one may legitimately alternate between a function and its helpers
+			outer := ""
+			for _, f := range g.Frames {
+				if strings.HasPrefix(f, libPrefix) {
+					outer = strings.TrimPrefix(f, libPrefix)
+				}
+			}
+			if outer != "" {
+				now[key{g.ID, outer}] = g.Raw
+			}
+		}
+		if cand == nil {
+			cand = now
+		} else {
+			for k := range cand {
+				if _, ok := now[k]; !ok {
+					delete(cand, k)
+				} else {
+					cand[k] = now[k]
+				}
+			}
+		}
+		if len(cand) == 0 {
+			return SpinState{Reason: "no goroutine stayed in one library function"}
+		}
+		time.Sleep(time.Second)
+	}
+	for k, raw := range cand {
+		fn := k.fn
+		for _, g := range ParseDump(raw) {
+			for _, f := range g.Frames {
+				if strings.HasPrefix(f, libPrefix) {
+					fn = strings.TrimPrefix(f, libPrefix) + "<-" + k.fn
+					break
+				}
+			}
+		}
+		return SpinState{Spinning: true, Func: fn, CPU: processCPU() - cpu0, Dump: raw}
+	}
+	return SpinState{Reason: "no candidate"}
 }
